@@ -184,6 +184,8 @@ async fn run_one(sc: &Value, listener: &TcpListener, sched: &AsyncSched, idx: us
         let body: Option<Vec<u8>> = match kind.as_str() {
             "send_pid" => Some(pass_through(&OwnedTerm::Tuple(vec![OwnedTerm::Integer(2), a(""), OwnedTerm::Pid(to)]), Some(&tagged("send_pid", frame_no)))),
             "send_name" => Some(pass_through(&OwnedTerm::Tuple(vec![OwnedTerm::Integer(6), OwnedTerm::Pid(remote.clone()), a(""), a(tgt)]), Some(&tagged("send_name", frame_no)))),
+            "die_pid" => Some(pass_through(&OwnedTerm::Tuple(vec![OwnedTerm::Integer(2), a(""), OwnedTerm::Pid(to)]), Some(&tagged("die", frame_no)))),
+            "die_name" => Some(pass_through(&OwnedTerm::Tuple(vec![OwnedTerm::Integer(6), OwnedTerm::Pid(remote.clone()), a(""), a(tgt)]), Some(&tagged("die", frame_no)))),
             "exit" => Some(pass_through(&OwnedTerm::Tuple(vec![OwnedTerm::Integer(3), OwnedTerm::Pid(remote.clone()), OwnedTerm::Pid(to), tagged("exit", frame_no)]), None)),
             "monitor_exit" => Some(pass_through(&OwnedTerm::Tuple(vec![OwnedTerm::Integer(21), OwnedTerm::Pid(remote.clone()), OwnedTerm::Pid(to), OwnedTerm::Reference(rref.clone()), tagged("monitor_exit", frame_no)]), None)),
             "rpc_reply" => {
